@@ -30,8 +30,11 @@ pub fn fake_instant() -> std::time::Instant {
 
 pub static mut RANDOM_LAST: u32 = 0;
 pub static mut RANDOM_CALLS: u32 = 0;
+pub static mut RANDOM_FIXED: Option<u32> = None;
 pub fn random_u32() -> u32 {
-    let v: u32 = kani::any();
+    // any u32; an obligation may pin it to a concrete value (shape instantiation: keeps the nonce comparison,
+    // and with it the control flow through the Rc/RefCell-heavy handlers, concrete)
+    let v: u32 = match unsafe { RANDOM_FIXED } { Some(x) => x, None => kani::any() };
     unsafe { RANDOM_LAST = v; RANDOM_CALLS += 1; }
     v
 }
